@@ -33,6 +33,11 @@ let show_sout = function
   | M.THang -> "hang"
 
 let int_opt s = try Some (int_of_string s) with _ -> None
+(* offsets may be any 64-bit int (OCaml ints are 63-bit): straight to Coq's Z *)
+let z_opt s =
+  let digits = if String.length s > 0 && s.[0] = '-' then String.sub s 1 (String.length s - 1) else s in
+  if digits <> "" && String.length digits <= 19 && String.for_all (fun c -> c >= '0' && c <= '9') digits
+  then (try Some (z_of_string s) with _ -> None) else None
 let nat_opt s = match int_opt s with Some n when n >= 0 -> Some (nat_of_int n) | _ -> None
 
 let pred_of p : (int -> bool) option =
@@ -58,7 +63,10 @@ let ( >>= ) o f = match o with Some x -> f x | None -> None
 
 let parse_lop (s : string) : int M.op option =
   match String.split_on_char ':' s with
-  | ["at"; n] -> int_opt n >>= fun n -> Some (M.OAt (z_of_int n))
+  | ["at"; n] -> z_opt n >>= fun n -> Some (M.OAt n)
+  | ["copy"; k] -> nat_opt k >>= fun k -> Some (M.OCopy k)
+  | ["assign"; k; j] -> nat_opt k >>= fun k -> nat_opt j >>= fun j -> Some (M.OAssign (k, j))
+  | ["nilcur"] | ["zerocur"] -> Some M.ONilCursor
   | ["last"] -> Some M.OLast
   | ["end"] -> Some M.OEnd
   | ["find"; p] -> pred_of p >>= fun p -> Some (M.OFind p)
@@ -71,7 +79,7 @@ let parse_lop (s : string) : int M.op option =
   | ["rm"; k] -> nat_opt k >>= fun k -> Some (M.ORemove k)
   | ["trunc"; k] -> nat_opt k >>= fun k -> Some (M.OTruncate k)
   | ["clear"] -> Some M.OClear
-  | ["peek"; n] -> int_opt n >>= fun n -> Some (M.OPeek (z_of_int n))
+  | ["peek"; n] -> z_opt n >>= fun n -> Some (M.OPeek n)
   | ["each"; p] -> pred_of p >>= fun p -> Some (M.OEach p)
   | ["len"] -> Some M.OLen
   | ["empty"] -> Some M.OIsEmpty
@@ -82,7 +90,7 @@ let parse_qop (s : string) : int M.qop option =
   | ["add"; v] -> int_opt v >>= fun v -> Some (M.QAdd v)
   | ["pop"] -> Some M.QPop
   | ["front"] -> Some M.QFront
-  | ["peek"; n] -> int_opt n >>= fun n -> Some (M.QPeek (z_of_int n))
+  | ["peek"; n] -> z_opt n >>= fun n -> Some (M.QPeek n)
   | ["each"; p] -> pred_of p >>= fun p -> Some (M.QEach p)
   | ["clear"] -> Some M.QClear
   | ["len"] -> Some M.QLen
@@ -96,7 +104,7 @@ let parse_sop (s : string) : int M.sop option =
   | ["empty"] -> Some M.SIsEmpty
   | ["clear"] -> Some M.SClear
   | ["top"] -> Some M.STop
-  | ["peek"; n] -> int_opt n >>= fun n -> Some (M.SPeek (z_of_int n))
+  | ["peek"; n] -> z_opt n >>= fun n -> Some (M.SPeek n)
   | ["pop"] -> Some M.SPop
   | ["each"; p] -> pred_of p >>= fun p -> Some (M.SEach p)
   | ["len"] -> Some M.SLen
